@@ -190,8 +190,11 @@ class C16(Prop):
                 inner = program[n["inner"]]
                 data = {o for m in inner["nodes"] for o in m.get("dataOuts", [])}
                 ordering_only |= {ren.get(e, e) for m in inner["nodes"] for e in m.get("emits", []) if e not in data}
+        # (a name the CALLER supplied — the upstream value of a by-passed producer under entry points — is an ordinary value taken from
+        #  the caller, whatever its producer would have made of it)
+        supplied = {k for k, _ in obs.get("values_used", [])}
         for k, v in obs["values"]:
-            if k in ordering_only:
+            if k in ordering_only and k not in supplied:
                 return f"result contains the ordering-only name {k!r} (value {v!r})"
             if k not in outputs:
                 return f"result contains {k!r}, which is not a declared output of the graph"
